@@ -189,6 +189,27 @@ func (r *conc14Runner) stressTxPool(seed int64, nw, nops int, addsOnly bool) {
 	if cache.CountTx() != n || int64(cache.NumBytes()) != sum {
 		r.add("C14", "quiescent-counters", fmt.Sprintf("txpool seed=%d: CountTx=%d NumBytes=%d but %d transactions totalling %d bytes are reachable by hash", seed, cache.CountTx(), cache.NumBytes(), n, sum))
 	}
+	// quiescence: every transaction reachable by hash is held by its sender's list (otherwise it can be neither selected nor
+	// evicted, and the pool-wide bounds can never be restored)
+	listed := map[string]bool{}
+	for _, sn := range senders {
+		for _, w := range cache.GetTransactionsPoolForSender(string(sn)) {
+			listed[string(w.TxHash)] = true
+		}
+	}
+	orphans := 0
+	var firstOrphan []byte
+	cache.ForEachTransaction(func(h []byte, v *txcache.WrappedTransaction) {
+		if !listed[string(h)] {
+			if orphans == 0 {
+				firstOrphan = append([]byte{}, h...)
+			}
+			orphans++
+		}
+	})
+	if orphans > 0 && !addsOnly {
+		r.add("C14", "unevictable-after-concurrency", fmt.Sprintf("txpool seed=%d: %d transaction(s) reachable by hash (e.g. %s) are in no sender's list once all goroutines have finished: they can be neither selected nor evicted", seed, orphans, hx(firstOrphan)))
+	}
 	if !addsOnly {
 		// eviction must still work after the concurrent phase: sequential insertions keep the pool within CountThreshold(+1)
 		rng := rand.New(rand.NewSource(seed))
